@@ -4,6 +4,7 @@ package main
 
 import (
 	"fmt"
+	"sync"
 	"go/constant"
 	"go/types"
 	"sort"
@@ -467,6 +468,10 @@ func (e *Env) ident(name string) (TV, error) {
 	// local variable of the function (current value of its cell); inside
 	// old() parameters denote their entry values
 	if e.fr != nil {
+		// a name bound by "at call X let NAME = E" on this path
+		if t, ok := e.cellState().cells[letKey{name}]; ok {
+			return TV{t, e.fr.letTypes[name]}, nil
+		}
 		if e.inOld {
 			// contract of a closure: a captured variable is shared state, not a
 			// local of the closure; inside old() it has its value in the old
@@ -512,6 +517,48 @@ func (e *Env) ident(name string) (TV, error) {
 				e.vc.deadLocals[name] = t
 			}
 			return TV{t, typ}, nil
+		}
+	}
+	// a let name that is not bound on this path: one unconstrained value
+	if e.fr != nil && e.fr.contract != nil {
+		for _, cs := range e.fr.contract.CallSites {
+			if cs.Let != name {
+				continue
+			}
+			srt, known := e.fr.letSorts[name]
+			if !known {
+				// bound by a call that is translated later (a return that
+				// precedes it in block order): use the sort recorded by an
+				// earlier pass, or ask for another pass
+				if li, ok := lookupLetInfo(e.vc.fname, name); ok {
+					srt, known = li.sort, true
+					if e.fr.letTypes == nil {
+						e.fr.letTypes = map[string]types.Type{}
+						e.fr.letSorts = map[string]Sort{}
+					}
+					e.fr.letTypes[name], e.fr.letSorts[name] = li.typ, li.sort
+				} else if noteLetMiss(e.vc.fname, name) <= 2 {
+					// ask for another pass (this one is discarded); a name that
+					// stays unbound after two more passes is bound by no call
+					e.vc.newHeaps = true
+					return TV{}, fmt.Errorf("let name %q not yet bound in this pass", name)
+				}
+			}
+			if !known {
+				// no call that binds the name precedes this clause: the call
+				// the name was written for is gone (reported like any other
+				// name the code no longer provides: a failed binding obligation)
+				return TV{}, fmt.Errorf("unknown identifier %q (let name: no call that binds it precedes this clause)", name)
+			}
+			if e.vc.deadLocals == nil {
+				e.vc.deadLocals = map[string]Term{}
+			}
+			t, have := e.vc.deadLocals["let:"+name]
+			if !have {
+				t = e.vc.fresh("deadlet:"+name, srt)
+				e.vc.deadLocals["let:"+name] = t
+			}
+			return TV{t, e.fr.letTypes[name]}, nil
 		}
 	}
 	// ghost state
@@ -891,6 +938,32 @@ func (e *Env) call(x *ECall) (TV, error) {
 			ref = sBase(ref)
 		}
 		return TV{and(le(e.old.wm, ref), lt(ref, e.st.wm)), tBool}, nil
+	case "isa":
+		// isa(x, "T"): the object x refers to was allocated with type T
+		// (struct type for pointers, map / slice / channel type otherwise)
+		if len(x.Args) != 2 {
+			return TV{}, fmt.Errorf("isa takes a reference and a type name")
+		}
+		v, err := e.eval(x.Args[0])
+		if err != nil {
+			return TV{}, err
+		}
+		lit, ok := x.Args[1].(*EStr)
+		if !ok {
+			return TV{}, fmt.Errorf("isa: second argument must be a type name string")
+		}
+		nerr := len(vc.errs)
+		t, _ := vc.lemmaParamType(e, lit.V)
+		if len(vc.errs) > nerr || t == nil {
+			vc.errs = vc.errs[:nerr]
+			return TV{}, fmt.Errorf("isa: unknown type %s", lit.V)
+		}
+		ref := v.T
+		if ref.Sort == SSlice {
+			ref = sBase(ref)
+		}
+		vc.declare("rtype", "(declare-fun rtype (Int) Int)")
+		return TV{eq(T(SInt, "(rtype %s)", ref.S), vc.typeTag(t)), tBool}, nil
 	case "loopfresh":
 		// loopfresh(x): x was allocated since the loop was entered (loop clauses)
 		if len(x.Args) != 1 {
@@ -1415,4 +1488,38 @@ func (e *Env) lookupGoFunc(name string) *ssa.Function {
 		return nil
 	}
 	return sp.Func(fname)
+}
+
+// letInfo remembers sort and type of the names bound by "at call ... let"
+// across the passes over one function.
+type letInfo struct {
+	sort Sort
+	typ  types.Type
+}
+
+var letInfoMu sync.Mutex
+var letInfoCache = map[string]letInfo{}
+
+func lookupLetInfo(fname, name string) (letInfo, bool) {
+	letInfoMu.Lock()
+	defer letInfoMu.Unlock()
+	li, ok := letInfoCache[fname+"\x00"+name]
+	return li, ok
+}
+
+var letMisses = map[string]int{}
+
+// noteLetMiss counts the passes in which a let name was used before any call
+// bound it.
+func noteLetMiss(fname, name string) int {
+	letInfoMu.Lock()
+	defer letInfoMu.Unlock()
+	letMisses[fname+"\x00"+name]++
+	return letMisses[fname+"\x00"+name]
+}
+
+func recordLetInfo(fname, name string, srt Sort, typ types.Type) {
+	letInfoMu.Lock()
+	defer letInfoMu.Unlock()
+	letInfoCache[fname+"\x00"+name] = letInfo{srt, typ}
 }
